@@ -8,7 +8,7 @@ git -C /repo worktree remove --force $wt 2>/dev/null
 git -C /repo worktree add -q $wt HEAD || exit 2
 (cd $wt && (git apply /verif/seeded/$sid/patch.diff || git apply --3way /verif/seeded/$sid/patch.diff)) || { git -C /repo worktree remove --force $wt; exit 2; }
 rm -rf $vc; mkdir -p $vc
-rsync -a --exclude .git --exclude replays --exclude 'build/cases' /verif/ $vc/
+rsync -a --exclude .git --exclude replays --exclude 'build/cases' ${VERIF_SRC:-/verif}/ $vc/
 cd $vc
 VERIF_REPO=$wt VERIF_DIR=$vc "$@"
 rc=$?
